@@ -3564,6 +3564,8 @@ def distributed_shampoo(
       precond_grad = preconditioner.preconditioned_grad(
           precond_grad,
           _maybe_dequantize_preconditioners(state.preconditioners))
+      if graft_type is GraftingType.NONE:
+        precond_grad = precond_grad * preconditioner_multiplier
     else:
       if graft_type == GraftingType.NONE:
         logging.error("skipping preconditioning without grafting for param %s",
